@@ -2,6 +2,7 @@
 
 HARNESSES = {
     'mc_hash': dict(src=['mc_hash.c'], flavour='asan'),
+    'mc_logmath': dict(src=['mc_logmath.c'], flavour='asan'),
 }
 
 TRUST = ['gcc 12 / AddressSanitizer / UBSan runtime', 'the reference model in the harness source',
@@ -19,7 +20,32 @@ def _hash_runs(n):
             for m in ('cs', 'nocase', 'bin')]
 
 
+def ex_cov(stats, maxes, flags, tier):
+    return dict(evaluations=stats.get('evaluations', 0), distinct_nontrivial=stats.get('nontrivial', 0))
+
+
+def _lm_runs(bases, shifts):
+    return [dict(h='mc_logmath', label='logmath-b%s-s%d' % (b, s), args=['--base', b, '--shift', str(s)])
+            for b in bases for s in shifts]
+
+
 CHECKS = {
+    'C19': dict(
+        title='log-add accurate, symmetric, monotone; log/exp round trip never increases',
+        level='exploration',
+        runs={'quick': _lm_runs(['1.0001', '1.0003', '1.001', '1.003', '1.01', '1.1'], [0, 1, 2, 4]),
+              'thorough': _lm_runs(['1.0001', '1.0003', '1.001', '1.003', '1.01', '1.1', '1.00001', '1.00005', '1.5', '2.0'],
+                                   [0, 1, 2, 3, 4, 8])},
+        budget_s={'quick': 120, 'thorough': 1200},
+        coverage=ex_cov,
+        rule='complete enumeration per (base, shift): every difference d in [0, table_size+512] x anchors r in '
+             '{0,-1,-12345,zero+d+1} x both argument orders for logmath_add; every integer log value in [-2*table_size, 1000] '
+             'x 5 fractional offsets for logmath_log/logmath_exp; oracle computed in long double. non-trivial = the add table '
+             'contributed a non-zero increment, or the converted probability is not an exact power of the base; each (d, r) and '
+             '(v, fraction) pair is distinct by construction',
+        assumptions=['long double libm (expl/log1pl/logl) as the arithmetic oracle, tolerance 1e-4 unit for the table\'s accumulated division error',
+                     'bases and shifts outside the listed grid are not explored'] + TRUST,
+    ),
     'C20': dict(
         title='hash table is a map under any operation history',
         level='model_checking',
@@ -34,4 +60,24 @@ CHECKS = {
         assumptions=['string-key and binary-key APIs are not mixed on one table (the header calls bkey on nocase tables unpredictable)',
                      'values are the two non-NULL tokens 1 and 2; table size fixed at the smallest prime (101)'] + TRUST,
     ),
+}
+
+PENDING_REASON = {}
+
+MANIFEST_TEXT = {
+    'C20': dict(
+        text='Explicit-state model checking of the real hash_table_t: breadth-first search to FIXPOINT over all histories of '
+             'enter/replace/delete/empty on 6 (quick) or 8 (thorough) keys forced into shared buckets, in case-sensitive, '
+             'case-insensitive and binary-key mode; every transition is executed on the implementation and compared with an '
+             'association-list model (return value, every lookup, inuse, iterator walk, list export) under ASan. Because the '
+             'canonical state space is finite and closed, the result covers histories of every length over this alphabet.',
+        design_ref='DESIGN.md section 2, H1', technique='explicit-state BFS to fixpoint on the implementation, lock-step reference map',
+        note='key alphabet of 6/8 keys and two values; 101-bucket table only; API mixing string/binary keys on one table excluded'),
+    'C19': dict(
+        text='Complete enumeration of the finite input space that decides the property per (base, shift): every table index and '
+             '512 differences beyond the table, at several anchors and in both argument orders, plus every integer log value '
+             'over twice the table range at five fractional positions for the conversions, judged by long-double arithmetic. '
+             'logmath_add depends only on (max, difference), so all differences x representative anchors is the whole behaviour.',
+        design_ref='DESIGN.md section 2, H2', technique='bounded exhaustive enumeration against a long-double oracle',
+        note='grid of 6 (quick) / 10 (thorough) bases x 4/6 shifts; libm long double trusted; tolerance 1e-4 unit'),
 }
